@@ -46,7 +46,10 @@ MIN_LEN = {
 }
 
 
-EXTRA_COMBINATIONS = {'AnnAssign': [[('node.target/kind', 'Attribute'), ('node.value/present', 'False')]]}
+EXTRA_COMBINATIONS = {'AnnAssign': [[('node.target/kind', 'Attribute'), ('node.value/present', 'False')]],
+                      # the star wildcard `*_` (a MatchStar without a name) and the mapping pattern without `**rest`
+                      'Match': [[('node.cases[0].pattern/kind', 'MatchStar'), ('node.cases[0].pattern.name/present', 'False')],
+                                [('node.cases[0].pattern/kind', 'MatchMapping'), ('node.cases[0].pattern.rest/present', 'False')]]}
 
 # blocks whose last statement is also generated as a real `return` / `raise` (visited by supp's own visit method, not sunk)
 ESCAPING_LAST = {('Try', 'body')}
@@ -179,8 +182,15 @@ class ShapeBuilder(object):
                 # a protected block may end in a statement that leaves it: control still reaches the handlers and the
                 # finally block from every statement before it (and from the expression the statement evaluates)
                 if (cls, fld.name) in ESCAPING_LAST and k >= 2:
-                    last = self.pick(key + ('last',), ['opaque', 'Return', 'Raise'])
-                    if last != 'opaque':
+                    last = self.pick(key + ('last',), ['opaque', 'Return', 'Raise', 'IfRaise'])
+                    if last == 'IfRaise':
+                        # ... or in a compound statement that ends in one: `if c: S; raise E` as the last statement of the block
+                        ifn = self.node('If', '%s[%d]' % (p, k - 1))
+                        body = ifn.fields['body']
+                        body[-1] = self.node('Raise', body[-1].path)
+                        ifn.fields['orelse'] = []
+                        out[-1] = ifn
+                    elif last != 'opaque':
                         out[-1] = self.node(last, '%s[%d]' % (p, k - 1))
                 return out
             return self.opaque('stmt', p)
@@ -371,7 +381,9 @@ class Extractor(object):
         it = self.it
         util = it.module_env(UTIL)
         scope = it.module_env(SCOPE)
-        util['get_expr_end'] = Native('get_expr_end', lambda i, a, k: self.m_get_expr_end(a))
+        from .exprend import has_expr_end as exprend_has
+        if exprend_has(self.repo):
+            util['get_expr_end'] = Native('get_expr_end', lambda i, a, k: self.m_get_expr_end(a))
         util['insert_loc'] = Native('insert_loc', lambda i, a, k: self.m_insert_loc(a))
         scope['get_first_body_node_loc'] = Native('get_first_body_node_loc', lambda i, a, k: self.m_first_body(a))
         # natives are looked up by Native.name through nat_<name>; give them unique dispatch
@@ -746,6 +758,8 @@ def loc_kind(loc):
         if isinstance(a, SymPos) and isinstance(b, SymPos):
             if a.part == 'line' and b.part == 'col' and a.path == b.path and not a.delta and not b.delta and not a.lens and not b.lens:
                 return ('np', a.path, None)
+            if a.part == 'end_line' and b.part == 'end_col' and a.path == b.path and not a.delta and not b.delta and not a.lens and not b.lens:
+                return ('node_end', a.path, None)      # the end the parser records for the node: the end of its last token
             return ('arith', (a.path, a.part, a.delta) + ((a.lens,) if a.lens else ()), (b.path, b.part, b.delta) + ((b.lens,) if b.lens else ()))
         if isinstance(a, int) and isinstance(b, int):
             return ('const', loc, None)
